@@ -485,17 +485,8 @@ Fixpoint scan (fuel : nat) (s : st) (line : str) (pos : N) (acc : list Token) : 
 
 Definition bom : N := 65279.
 
-(* one physical line *)
-Definition line_step (s : st) (line0 : str) (first : bool) (start_col : N) : result (st * list Token) :=
-  let s := mkSt (paren s) (indents s) (contstr s) (contstr_start s) (endprog s) (new_line s) (prefix s) (addp s) (fstack s) (lnum s + 1) (len line0) in
-  let '(s, line, pos) :=
-    if first then
-      let '(s, line) := match line0 with
-                        | c :: t => if c =? bom then (upd_addp s [bom], t) else (s, line0)
-                        | [] => (s, line0) end in
-      let line' := repeat 94 (N.to_nat start_col) ++ line in
-      (mkSt (paren s) (indents s) (contstr s) (contstr_start s) (endprog s) (new_line s) (prefix s) (addp s) (fstack s) (lnum s) (len line + start_col), line', start_col)
-    else (s, line0, 0) in
+(* one physical line, once the first-line treatment (BOM, start column) is done *)
+Definition line_core (s : st) (line : str) (pos : N) : result (st * list Token) :=
   let fuel := S (S (2 * length line)) in
   match contstr s with
   | [] => scan fuel s line pos []
@@ -513,6 +504,17 @@ Definition line_step (s : st) (line0 : str) (first : bool) (start_col : N) : res
       end
     end
   end.
+
+(* one physical line *)
+Definition line_step (s : st) (line0 : str) (first : bool) (start_col : N) : result (st * list Token) :=
+  let s := mkSt (paren s) (indents s) (contstr s) (contstr_start s) (endprog s) (new_line s) (prefix s) (addp s) (fstack s) (lnum s + 1) (len line0) in
+  if first then
+    let '(s, line) := match line0 with
+                      | c :: t => if c =? bom then (upd_addp s [bom], t) else (s, line0)
+                      | [] => (s, line0) end in
+    let line' := repeat 94 (N.to_nat start_col) ++ line in
+    line_core (mkSt (paren s) (indents s) (contstr s) (contstr_start s) (endprog s) (new_line s) (prefix s) (addp s) (fstack s) (lnum s) (len line + start_col)) line' start_col
+  else line_core s line0 0.
 
 Fixpoint lines_loop (s : st) (lines : list str) (first : bool) (start_col : N) (acc : list Token)
   : result (st * list Token) :=
